@@ -655,6 +655,148 @@ class Extractor:
         self.out.append("/-- pipe.rs `PIPE_BACKPRESSURE_COUNT` -/")
         self.out.append("def pipeDefaultDepth : Nat := %d\n" % depth)
         self.digest["facts"]["pipeDefaultDepth"] = depth
+        self.pipe_facts(toks)
+
+    # ---- pipe.rs: the critical sections of the stream core and of the poll-function slot ----------------
+    def lock_sections(self, toks, lo, hi, guard_expr, fields):
+        """Every `<guard_expr>.lock()` between token indices lo..hi with the scope in which the guard lives
+        (a `let`-bound guard lives to the end of its block, a temporary to the end of its statement) and the fields of the
+        protected struct touched inside that scope, in source order."""
+        names = [t[1] for t in toks]
+        out = []
+        i = lo
+        n = len(guard_expr)
+        while i < hi - n - 2:
+            if names[i:i + n] == guard_expr and names[i + n:i + n + 3] == [".", "lock", "("]:
+                # is the guard bound by a let?
+                j = i - 1
+                bound = False
+                if names[j] == "=":
+                    k = j - 1
+                    while k > lo and names[k] not in (";", "{", "}"):
+                        if names[k] == "let":
+                            bound = True
+                            break
+                        k -= 1
+                # `let x = { stream_core.lock().unwrap().field... }` style temporaries: bound only if the statement ends right after unwrap()
+                if bound:
+                    q = i + n + 3
+                    depth_p = 1
+                    while depth_p:
+                        if names[q] == "(":
+                            depth_p += 1
+                        elif names[q] == ")":
+                            depth_p -= 1
+                        q += 1
+                    # allow .unwrap()
+                    if names[q:q + 4] == [".", "unwrap", "(", ")"]:
+                        q += 4
+                    if names[q] != ";":
+                        bound = False
+                # scope end
+                depth = 0
+                q = i
+                end = hi
+                while q < hi:
+                    if names[q] == "{":
+                        depth += 1
+                    elif names[q] == "}":
+                        if depth == 0:
+                            end = q
+                            break
+                        depth -= 1
+                    elif names[q] == ";" and depth == 0 and not bound:
+                        end = q
+                        break
+                    q += 1
+                touched = []
+                for q in range(i, end):
+                    if names[q] in fields and names[q - 1] == "." and (not touched or touched[-1] != names[q]):
+                        touched.append(names[q])
+                out.append(touched)
+                i = i + n + 3
+            else:
+                i += 1
+        return out
+
+    def pipe_facts(self, toks):
+        names = [t[1] for t in toks]
+        # fields of PipeStreamCore
+        i = names.index("PipeStreamCore")
+        while not (names[i - 1] == "struct" and names[i] == "PipeStreamCore"):
+            i = names.index("PipeStreamCore", i + 1)
+        o = names.index("{", i)
+        c = find_matching(toks, o)
+        fields = [names[k] for k in range(o + 1, c) if names[k + 1] == ":" and names[k - 1] in ("{", ",")]
+        if sorted(fields) != sorted(["max_pipe_depth", "pending", "closed", "notify", "notify_stream_closed", "backpressure_release_notify"]):
+            raise Unsupported("PipeStreamCore fields are %r" % fields)
+        # the target reference of PipeContext
+        i = names.index("PipeContext")
+        while not (names[i - 1] == "struct" and names[i] == "PipeContext"):
+            i = names.index("PipeContext", i + 1)
+        o = names.index("{", i)
+        c = find_matching(toks, o)
+        k = names.index("target", o, c)
+        weak = names[k + 2] == "Weak"
+        self.out.append("/-- pipe.rs `PipeContext.target` is a `Weak` reference -/")
+        self.out.append("def pipeTargetWeak : Bool := %s\n" % ("true" if weak else "false"))
+        self.digest["facts"]["pipeTargetWeak"] = weak
+        # critical sections of the producing poll function of pipe()
+        o, c = find_fn(toks, "pipe")
+        secs = self.lock_sections(toks, o, c, ["stream_core"], fields)
+        self.out.append("/-- pipe.rs `pipe`: the critical sections the producing poll function takes on the stream core, in source order, with the core fields each one touches -/")
+        self.out.append("def pipeProducerSections : List (List String) := [%s]\n" % ", ".join("[" + ", ".join('"%s"' % f for f in sec) + "]" for sec in secs))
+        self.digest["facts"]["pipeProducerSections"] = secs
+        # PipeStream::drop and PipeStream::poll_next
+        o, c = find_fn(toks, "drop", impl_of="PipeStream")
+        secs = self.lock_sections(toks, o, c, ["self", ".", "core"], fields)
+        body = names[o:c]
+        chute = "REFERENCE_CHUTE" in body and "on_drop" in body
+        self.out.append("/-- pipe.rs `Drop for PipeStream`: core fields touched under the one lock it takes; does it hand `on_drop` to the disposal queue -/")
+        self.out.append("def pipeDropSections : List (List String) := [%s]" % ", ".join("[" + ", ".join('"%s"' % f for f in sec) + "]" for sec in secs))
+        self.out.append("def pipeDropQueuesOnDrop : Bool := %s\n" % ("true" if chute else "false"))
+        self.digest["facts"]["pipeDropSections"] = secs
+        o, c = find_fn(toks, "poll_next", impl_of="PipeStream")
+        secs = self.lock_sections(toks, o, c, ["self", ".", "core"], fields)
+        self.out.append("/-- pipe.rs `PipeStream::poll_next`: core fields touched under the one lock it takes -/")
+        self.out.append("def pipeConsSections : List (List String) := [%s]\n" % ", ".join("[" + ", ".join('"%s"' % f for f in sec) + "]" for sec in secs))
+        self.digest["facts"]["pipeConsSections"] = secs
+        # the consumer's three branches
+        ast, _ = self.src.fn_body("pipe.rs", "poll_next", impl_of="PipeStream")
+        rows = []
+        def mentions(node, what):
+            return any(isinstance(x, tuple) and x and ((x[0] == "mcall" and x[2] == what) or (x[0] in ("path", "field") and path_str(x).endswith(what))) for x in walk(node))
+        def result(node):
+            txt = repr(node)
+            if "'Pending'" in txt:
+                return "pending"
+            return "item" if "'Some'" in txt and "'Ready'" in txt else "fin"
+        found = None
+        for nnode in walk(ast):
+            if isinstance(nnode, tuple) and nnode and nnode[0] == "iflet" and mentions(nnode[2], "pop_front"):
+                found = nnode
+        if found is None:
+            raise Unsupported("poll_next: `if let Some(item) = core.pending.pop_front()` not found")
+        item_b, rest = found[3], found[4]
+        if not (isinstance(rest, tuple) and rest[0] == "if" and path_str(rest[1]).endswith("closed")):
+            # the else branch may be wrapped in a block
+            cand = [x for x in walk(rest) if isinstance(x, tuple) and x and x[0] == "if" and path_str(x[1]).endswith("closed")]
+            if not cand:
+                raise Unsupported("poll_next: `else if core.closed` not found")
+            rest = cand[0]
+        closed_b, pend_b = rest[2], rest[3]
+        for nm, br in (("item", item_b), ("closed", closed_b), ("empty", pend_b)):
+            rows.append((nm, result(br), mentions(br, "take") and "backpressure_release_notify" in repr(br), "'notify'" in repr(br) and "'assign'" in repr(br)))
+        self.out.append("/-- pipe.rs `PipeStream::poll_next`, per branch (an item is buffered / none and closed / none and open): what is returned, is the back-pressure waker taken, is the consumer's waker stored -/")
+        self.out.append("def pipeConsBranches : List (String × String × Bool × Bool) := [%s]\n" % ", ".join('("%s", "%s", %s, %s)' % (a, b, "true" if c1 else "false", "true" if d1 else "false") for a, b, c1, d1 in rows))
+        self.digest["facts"]["pipeConsBranches"] = rows
+        # PipeWaker is one-shot: wake_by_ref takes the context out of its slot
+        o, c = find_fn(toks, "wake_by_ref", impl_of="PipeWaker")
+        body = names[o:c]
+        oneshot = any(body[k:k + 3] == [".", "take", "("] for k in range(len(body) - 3)) and "context" in body
+        self.out.append("/-- pipe.rs `PipeWaker::wake_by_ref` takes the context out of the waker (one-shot) -/")
+        self.out.append("def pipeWakerOneShot : Bool := %s\n" % ("true" if oneshot else "false"))
+        self.digest["facts"]["pipeWakerOneShot"] = oneshot
 
     def run(self):
         self.out.append("/- GENERATED by /verif/tools/extract.py from /repo/src — do not edit; rewritten on every check run. -/")
